@@ -266,7 +266,7 @@ class _:
     }, "decreases": "2 * (NMARKS() - CUR()) + (1 if midx(self._unaccepted_mark) >= 0 else 0)", "props": ("C01", "C02", "C03", "C04")}}
     ensures = {
         "C02.closed": "exists(r, old(CUR()) <= r < NMARKS(), mk(r) == 2 and CUR() == r + 1 and result[1] == me(r) and self._current_char_index == ms(r)) and midx(self._unaccepted_mark) == -1 and scan(self)",
-        "C02.fields": "fresh(result[0]) and fresh(result[2]) and forall(i, 0 <= i < len(result[0]), fresh(result[0][i]) and field_at(result[0][i], self, ghost('fe', i), ghost('fr', i), ghost('fks', i)) and old(CUR()) <= ghost('fe', i) and ghost('fr', i) < CUR() and key_start_ok(i, first_key_start))",
+        "C02.fields": "fresh(result[0]) and allocated(result[0]) and fresh(result[2]) and forall(i, 0 <= i < len(result[0]), fresh(result[0][i]) and allocated(result[0][i]) and field_at(result[0][i], self, ghost('fe', i), ghost('fr', i), ghost('fks', i)) and old(CUR()) <= ghost('fe', i) and ghost('fr', i) < CUR() and key_start_ok(i, first_key_start))",
         "C09.duplicate-field-keys": "forall((i, j), 0 <= i < j < len(result[0]), implies(result[0][i]._key == result[0][j]._key, result[0][i]._key in result[2]))",
         "C09.no-duplicates-means-empty": "len(result[2]) >= 0 and implies(len(result[2]) == 0, forall(k, 'str', True, not (k in result[2])))",
         "C04.no-at-consumed": "no_block_start(old(CUR()), CUR())",
@@ -401,7 +401,7 @@ class _:
     ensures = {
         "C03.raw-region": "raw_is_region(result._raw, self.bibstr, ms(old(CUR()) - 1), self._current_char_index + 1)",
         "C02.entry": "implies(cls_is(result, 'Entry'), entry_read(as_ref(result, 'ref:Entry'), self, old(CUR()) - 1, m_val, ghost('ec')))",
-        "C01.block-shape": "implies(cls_is(result, 'Entry'), not isnone(result._parser_metadata) and fresh(result._parser_metadata) and fresh(as_ref(result, 'ref:Entry')._fields) and forall(i, 0 <= i < len(as_ref(result, 'ref:Entry')._fields), fresh(as_ref(result, 'ref:Entry')._fields[i]) and isstr(as_ref(result, 'ref:Entry')._fields[i]._value)))",
+        "C01.block-shape": "allocated(result) and implies(cls_is(result, 'Entry'), not isnone(result._parser_metadata) and fresh(result._parser_metadata) and fresh(as_ref(result, 'ref:Entry')._fields) and allocated(as_ref(result, 'ref:Entry')._fields) and forall(i, 0 <= i < len(as_ref(result, 'ref:Entry')._fields), fresh(as_ref(result, 'ref:Entry')._fields[i]) and allocated(as_ref(result, 'ref:Entry')._fields[i]) and isstr(as_ref(result, 'ref:Entry')._fields[i]._value)))",
         "C09.duplicates-flagged": "implies(cls_is(result, 'Entry'), forall((i, j), 0 <= i < j < len(as_ref(result, 'ref:Entry')._fields), as_ref(result, 'ref:Entry')._fields[i]._key != as_ref(result, 'ref:Entry')._fields[j]._key))",
         "C09.duplicate-fields-wrapper": "implies(not cls_is(result, 'Entry'), cls_is(result, 'DuplicateFieldKeyBlock') and fresh(result) and not isnone(as_ref(result, 'ref:DuplicateFieldKeyBlock')._ignore_error_block) and cls_is(as_ref(as_ref(result, 'ref:DuplicateFieldKeyBlock')._ignore_error_block, 'ref:Block'), 'Entry') and entry_read(as_ref(as_ref(result, 'ref:DuplicateFieldKeyBlock')._ignore_error_block, 'ref:Entry'), self, old(CUR()) - 1, m_val, ghost('ec')) and same(result._raw, as_ref(as_ref(result, 'ref:DuplicateFieldKeyBlock')._ignore_error_block, 'ref:Entry')._raw) and same(result._start_line_in_file, as_ref(as_ref(result, 'ref:DuplicateFieldKeyBlock')._ignore_error_block, 'ref:Entry')._start_line_in_file))",
         "C04.scan": "scan(self) and midx(self._unaccepted_mark) == -1 and no_block_start(old(CUR()), CUR()) and self._current_char_index == ms(CUR() - 1) and mk(CUR() - 1) == 2",
@@ -511,7 +511,7 @@ class _SplitContract:
     contract.)"""
     uses_marks = True
     reveals = ["raw_is_region"]      # opened only for the failed block, whose raw text split() slices itself
-    requires = {"fresh-splitter": "midx(self._unaccepted_mark) == -1 and self._current_line == -1 and len(self.bibstr) == BLEN() and isint(self._implicit_comment_start) and ival(self._implicit_comment_start) == 0 and self._implicit_comment_start_line == -1",
+    requires = {"fresh-splitter": "midx(self._unaccepted_mark) == -1 and self._current_line == -1 and isint(self._implicit_comment_start) and ival(self._implicit_comment_start) == 0 and self._implicit_comment_start_line == -1",
                 }
     locals = {"library": "ref:Library"}
     ghost_code = [
@@ -569,11 +569,12 @@ def _split_variant(doc, library_sort, extra_requires, target_clause, footprint, 
 # entry-point proofs (contracts/entrypoint.py, C20) use as the interface of split().
 contract(S + "split#new")(_split_variant(
     "Variant: no target library -- a fresh, well-formed Library is returned.", "none", {},
-    "WF(result) and fresh(result)", []))
-# Not composed: that the result satisfies parsed_ok (contracts/library.py), the precondition under which the two default
-# middlewares are proved exception-free (contracts/defaultparse.py).  The handlers export the per-block facts
-# (C01.block-shape) and Library.add the index facts (C01+C08.index-values); carrying them through split()'s loop as a
-# quantified invariant over the block list was not discharged by z3 / cvc5 (pair quantifier through list updates).
+    "WF(result) and fresh(result)", [],
+    extra_invariants={"parsed": "parsed_ok(library)"},
+    extra_ensures={"C01.parsed-ok": "parsed_ok(result)"}))
+# parsed_ok (contracts/library.py) is the precondition under which the two default parse middlewares are proved
+# exception-free (contracts/defaultparse.py): the handlers export the per-block facts (C01.block-shape), Library.add keeps
+# parsed_ok when given such a block (C01.parsed-kept).
 contract(S + "split#into")(_split_variant(
     "Variant: a target library is given -- it is the library returned, and it stays well formed.", "ref:Library",
     {"library": "WF(library)"},
